@@ -78,6 +78,19 @@ class Worker:
         self.G, self.OH, self.CL, self.classproperty = G, OH, CL, classproperty
         self.userpath = Path(self.scratch) / "ofxtools" / "ofxget.cfg"
         self.userpath.parent.mkdir(parents=True, exist_ok=True)
+        # the module-level statements that build the configuration state (CONFIGPATH, USERCONFIGPATH, USERCFG, LIBCFG and their
+        # .read calls), cut out of the live source: re-executing them is what a new process does to that state
+        import ast
+        names = {"CONFIGPATH", "USERCONFIGPATH", "USERCFG", "LIBCFG"}
+        stmts = []
+        for n in ast.parse(open(G.__file__, encoding="utf-8").read()).body:
+            if isinstance(n, ast.Assign) and any(isinstance(t, ast.Name) and t.id in names for t in n.targets):
+                stmts.append(n)
+            elif (isinstance(n, ast.Expr) and isinstance(n.value, ast.Call) and isinstance(n.value.func, ast.Attribute)
+                  and isinstance(n.value.func.value, ast.Name) and n.value.func.value.id in names):
+                stmts.append(n)
+        self.boot_code = compile(ast.Module(body=stmts, type_ignores=[]), G.__file__, "exec") if len(stmts) == 6 else None
+        self.nboot = 0
 
     # -- files
     def put(self, path, text):
@@ -124,7 +137,11 @@ class Worker:
     def new_process(self, realfi):
         """what starting ofxget afresh does: the module body runs again (CONFIGPATH, USERCFG.read, LIBCFG.read, tables)"""
         self.cfgmod.CONFIGDIR = self.real_configdir if realfi else self.fidir
-        self.importlib.reload(self.G)
+        self.nboot += 1
+        if self.boot_code is None or self.nboot % 50 == 1:
+            self.importlib.reload(self.G)          # the whole module body
+        else:
+            exec(self.boot_code, self.G.__dict__)  # its configuration statements
 
     def one_run(self, run, table, realfi):
         G = self.G
@@ -1019,13 +1036,13 @@ def run(rep, tier, rng):
     cases = load_corpus()
     cases += gen_sweep(rng, tables, 3 if thorough else 1)
     cases += gen_persist(rng, tables, 12 if thorough else 4)
-    cases += gen_random(rng, tables, 4000 if thorough else 500)
+    cases += gen_random(rng, tables, 4000 if thorough else 400)
     cases += gen_reset(rng, tables, 5)
     cases += gen_listq(rng, tables)
     cases += gen_udefault(rng, tables)
-    cases += gen_wild(rng, tables, 3000 if thorough else 400)
-    cases += gen_malformed(rng, tables, 3000 if thorough else 400)
-    cases += gen_realfi(rng, tables, 400 if thorough else 60)
+    cases += gen_wild(rng, tables, 3000 if thorough else 300)
+    cases += gen_malformed(rng, tables, 3000 if thorough else 300)
+    cases += gen_realfi(rng, tables, 400 if thorough else 40)
     kept, bad = evaluate(cases, rep, tables)
     for k in (0, len(kept) // 3, 2 * len(kept) // 3, len(kept) - 1):
         if 0 <= k < len(kept):
